@@ -213,7 +213,9 @@ pub mod native {
             if trace { println!("REPLAY-TRACE {}", cx.drawn.join(" ")); }
             for n in &cx.out.checked { if !names.contains(n) { names.push(n); } }
             for (name, inputs) in &cx.out.failed {
-                if !seen.contains(name) {
+                // up to 5 failing inputs per obligation are reported (a known finding must match every one of them)
+                let k = seen.iter().filter(|n| *n == name).count();
+                if k < 5 {
                     seen.push(name);
                     println!("REPLAY-FAIL unit={unit} obligation={name} inputs=[{inputs}]");
                 }
@@ -239,6 +241,7 @@ pub mod native {
             }
         }
         let _ = std::panic::take_hook();
+        seen.sort(); seen.dedup();
         let mut failing = seen.len();
         if let Some(inputs) = &panicked {
             // one failing obligation per property the unit speaks about: `<Cxx>.<unit>.does_not_panic`
@@ -726,6 +729,7 @@ pub fn replay_bounded(unit: &str) -> Option<i32> {
         "b_c02_components_of_import" => run_grid(unit, contract_components_of_import, limit),
         "b_c02_components_of_placement" => run_grid(unit, contract_components_of_placement, limit),
         "b_c03_member_tag_classes" => run_grid(unit, contract_member_tag_classes, limit),
+        "b_c06_pipeline_defaults" => run_grid(unit, contract_pipeline_integer_defaults, limit),
         "b_c02_parameterized_components" => run_grid(unit, contract_parameterized_components, limit),
         "b_c14_large_numbers" => run_grid(unit, contract_enumerated_large_numbers, limit),
         "b_c02_nested_collections" => run_grid(unit, contract_generate_nested_collections, limit),
@@ -2448,6 +2452,48 @@ pub fn contract_enumerated_large_numbers<C: Ctx>(cx: &mut C) {
         let Some((_, variants)) = item_of(&res.generated, "E") else { vob!(cx, "C14.large_numbers.compiles", false); return; };
         let number_of = |name: &str| variants.iter().find_map(|v| { let d = match v.rfind(']') { Some(p) => v[p + 1..].trim(), None => v.trim() }; let mut p = d.split('='); if p.next().map(|n| n.trim()) == Some(name) { p.next().map(|n| n.replace(' ', "")) } else { None } });
         vob!(cx, "C14.large_numbers.explicit_numbers_are_kept_exactly", number_of("big") == Some(a.to_string()) && number_of("other") == Some(b.to_string()) && number_of("low") == Some("-1".to_string()) && number_of("mid") == Some("0".to_string()));
+    }
+    #[cfg(kani)]
+    { let _ = cx; }
+}
+
+/// C02 / C06 — DEFAULT of an INTEGER component, whole pipeline: the default function returns the type of the field, and its
+/// body (a literal, or the constant of a referenced value) has that type.
+pub fn contract_pipeline_integer_defaults<C: Ctx>(cx: &mut C) {
+    #[cfg(not(kani))]
+    {
+        // (declarations before S, component type, default written, field type expected, body expected)
+        let cases: [(&str, &str, &str, &str, &str); 8] = [
+            ("", "INTEGER (0..255)", "5", "u8", "5"),
+            ("", "INTEGER (-5..5)", "-5", "i8", "- 5"),
+            ("", "INTEGER", "5", "Integer", "Integer :: from (5i128)"),
+            ("", "INTEGER (0..255, ...)", "7", "Integer", "Integer :: from (7i128)"),
+            ("Small ::= INTEGER (0..255) max-val Small ::= 200", "Small", "max-val", "Small", "MAX_VAL"),
+            // a set expression: the field is typed from the folded range
+            ("", "INTEGER (0..10 | 20..300)", "5", "u16", "5"),
+            // a value reference whose own type differs from the component's type
+            ("max-val INTEGER ::= 300", "INTEGER (0..65535)", "max-val", "u16", "MAX_VAL"),
+            ("Small ::= INTEGER (0..255) max-val Small ::= 200", "INTEGER (0..255)", "max-val", "u8", "MAX_VAL"),
+        ];
+        let (pre, ty, dflt, want_ty, want_body) = cases[cx.choose(8)];
+        let src = format!("M DEFINITIONS AUTOMATIC TAGS ::= BEGIN {pre} S ::= SEQUENCE {{ f {ty} DEFAULT {dflt} }} END");
+        cx.describe(|| format!("{pre} S ::= SEQUENCE {{ f {ty} DEFAULT {dflt} }}"));
+        let out = crate::Compiler::<crate::generator::rasn::Rasn, _>::new().add_asn_literal(&src).compile_to_string();
+        let Ok(res) = out else { vob!(cx, "C06.pipeline_defaults.compiles", false); return; };
+        let g = &res.generated;
+        let field_ty = item_of(g, "S").and_then(|(_, fs)| fs.first().map(|f| f.rsplit("pub f :").next().unwrap_or("").trim().to_string())).unwrap_or_default();
+        let (ret_ty, body) = g.split("fn s_f_default () -> ").nth(1).map(|r| { let mut p = r.splitn(2, '{'); (p.next().unwrap_or("").trim().to_string(), p.next().unwrap_or("").split('}').next().unwrap_or("").trim().to_string()) }).unwrap_or_default();
+        vob!(cx, "C06.pipeline_defaults.field_type_is_chosen_from_the_constraint", field_ty == want_ty);
+        vob!(cx, "C02.pipeline_defaults.default_function_returns_the_field_type", !ret_ty.is_empty() && ret_ty == field_ty);
+        // the body has the declared type: a literal of that type, or a constant declared with that very type
+        let _ = want_body;
+        if body == "MAX_VAL" {
+            vob!(cx, "C06.pipeline_defaults.referenced_constant_is_declared_with_the_type_the_function_returns", g.contains(&format!("pub const MAX_VAL : {ret_ty} =")));
+        } else {
+            let n: i128 = dflt.parse().unwrap_or(0);
+            let lit = if n < 0 { format!("- {}", -n) } else { n.to_string() };
+            vob!(cx, "C06.pipeline_defaults.default_literal_has_the_type_the_function_returns", if ret_ty == "Integer" { body == format!("Integer :: from ({lit}i128)") } else { body == lit });
+        }
     }
     #[cfg(kani)]
     { let _ = cx; }
